@@ -61,6 +61,7 @@ BOOKKEEP = [
       contract="""
         ensures
             // (ASSUMED, L1: closures over &mut ctx + Option::transpose) amount = evaluated written amount; cost / lot = try_from_syntax of the written ones
+            r == computed_of(*syntax_amount, *old(ctx)), *final(ctx) == computed_ctx(*syntax_amount, *old(ctx)),
             ctx_extends(*old(ctx), *final(ctx)),
             r matches Ok(cp) ==> cp.wf() && Ok::<PostingAmount, EvalError>(cp.amount) == posting_amount_of(syntax_amount.amount.value.eval_result(*old(ctx)))
                 && (cp.cost is Some <==> syntax_amount.cost is Some) && (cp.lot is Some <==> syntax_amount.lot.price is Some),
@@ -100,5 +101,91 @@ BOOKKEEP = [
             final(postings)@.len() == old(postings)@.len(),
             forall|i: int| 0 <= i < old(postings)@.len() ==> (#[trigger] final(postings)@[i]).account == old(postings)@[i].account
                 && final(postings)@[i].amount == old(postings)@[i].amount,              // @check_balance.frame_postings
+"""),
+    U("process_posting", BK, [r"fn process_posting<'ctx>"], fn="process_posting",
+      rewrites=[RET(), ("R4",), ("R1-path", "super::Account", "Account", 1)],
+      contract="""
+        ensures
+            ctx_extends(*old(ctx), *final(ctx)),
+            // a posting with neither amount nor assertion is left to be deduced; nothing changes
+            (posting.amount is None && posting.balance is None) ==> (r matches Ok((None, None)) && final(bal)@ == old(bal)@ && *final(ctx) == *old(ctx)),   // @process_posting.unconstrained_untouched
+            // ---- C03: `Account = X` (no amount) ----
+            (posting.amount is None && posting.balance is Some) ==> ({
+                let x = posting_amount_of(posting.balance->Some_0.value.eval_result(*old(ctx)));
+                let h = bget(old(bal)@, account);
+                &&& (x is Err ==> r is Err)
+                &&& (x is Ok && x->Ok_0 is Zero && h.dom().len() > 1 ==> r is Err)          // @process_posting.assign_zero_on_multi_commodity_rejected
+                &&& (r matches Ok((ep, pe)) ==> x is Ok && pe is None && ep is Some
+                        && assigned_amount_ok(h, x->Ok_0, ep->Some_0.amount)                                                        // @process_posting.assigned_amount_exact
+                        && ep->Some_0.balance_delta == ep->Some_0.amount
+                        && final(bal)@ == old(bal)@.insert(account, assigned_holdings(h, x->Ok_0)))                                  // @process_posting.assignment_leaves_account_at_X_only
+            }),
+            // ---- C02: regular posting, optionally with `= X` ----
+            posting.amount is Some ==> ({
+                let cp = computed_of(posting.amount->Some_0, *old(ctx));
+                let ctx1 = computed_ctx(posting.amount->Some_0, *old(ctx));
+                let h1 = nz(add_pa(bget(old(bal)@, account), cp->Ok_0.amount));
+                &&& (cp is Err ==> r is Err)
+                &&& (r matches Ok((ep, pe)) ==> cp is Ok && ep is Some && ep->Some_0.amount == cp->Ok_0.amount
+                        && is_balancing_value(cp->Ok_0, ep->Some_0.balance_delta)                                                    // @process_posting.delta_is_balancing_value
+                        && final(bal)@ == old(bal)@.insert(account, h1))                                                             // @process_posting.adds_amount_to_that_account_only
+                &&& ((r is Ok && posting.balance is Some) ==> ({
+                        let e = posting_amount_of(posting.balance->Some_0.value.eval_result(ctx1));
+                        e is Ok && assertion_holds(h1, e->Ok_0) }))                                                                   // @process_posting.accepted_assertion_was_true
+                &&& ((cp is Ok && posting.balance is Some) ==> ({
+                        let e = posting_amount_of(posting.balance->Some_0.value.eval_result(ctx1));
+                        (e is Ok && !assertion_holds(h1, e->Ok_0)) ==>
+                            (r matches Err(BookKeepError::BalanceAssertionFailure { account_span, balance_span, .. })
+                                && account_span == posting.account.span && balance_span == posting.balance->Some_0.span) }))          // @process_posting.false_assertion_rejected_pointing_at_posting
+            }),
+"""),
+    U("add_transaction", BK, [r"fn add_transaction<'ctx>"], fn="add_transaction",
+      rewrites=[RET(), ("R6",),
+                ("R9-containers", "bcc::Vec::with_capacity_in(txn.posts.len(), ctx.arena)", "Vec::<Posting>::with_capacity(txn.posts.len())", 1),
+                ("R9-containers", "postings.into_boxed_slice()", "postings", 1),
+                ("R20-into-to-from", "amount: evaluated.amount.into(),", "amount: Amount::from(evaluated.amount),", 1)],
+      body_start="""
+    let ghost mut deltas: Seq<PostingAmount> = Seq::empty();
+""",
+      loops={0: """
+        invariant
+            i <= txn.posts@.len(),
+            postings@.len() == i,
+            deltas.len() == i,
+            balance@ == sum_deltas(deltas),
+            forall|j: int| 0 <= j < i && unconstrained(txn.posts@[j].value) ==> #[trigger] deltas[j] is Zero,
+            unfilled is None <==> count_unc(txn.posts@, i as int) == 0,
+            unfilled is Some ==> count_unc(txn.posts@, i as int) == 1 && unfilled->Some_0.value < i
+                && unconstrained(txn.posts@[unfilled->Some_0.value as int].value),
+            count_unc(txn.posts@, i as int) <= 1,
+"""},
+      loop_body_end={0: """
+        proof {
+            let ghost old_d = deltas;
+            deltas = deltas.push(evaluated.balance_delta);
+            assert(deltas.drop_last() =~= old_d);
+        }
+"""},
+      after_loop={0: """
+    proof { lemma_count_unc_mono(txn.posts@, 0, txn.posts@.len() as int); }
+"""},
+      after_top_if={0: """
+    proof {
+        if unfilled is Some {
+            let u = unfilled->Some_0.value as int;
+            assert(postings@[u].amount@ == mneg(sum_deltas(deltas)));
+        }
+        assert(accepted_with(&*ctx, postings@, txn.posts@, deltas));
+        assert(accepted(&*ctx, postings@, txn.posts@));
+    }
+"""},
+      contract="""
+        ensures
+            // C03: two or more postings with neither amount nor assertion cannot be deduced
+            count_unc(txn.posts@, txn.posts@.len() as int) >= 2 ==> r is Err,                                   // @add_transaction.two_unconstrained_rejected
+            r matches Ok(t) ==> t.date == txn.date && t.postings@.len() == txn.posts@.len(),
+            // C01/C03: accepted => one omitted amount absorbs exactly the negated sum of the balancing values,
+            //          or the rounded totals are balanced
+            r matches Ok(t) ==> accepted(&*final(ctx), t.postings@, txn.posts@),   // @add_transaction.accepted_only_if_deduced_or_balanced
 """),
 ]
